@@ -16,7 +16,7 @@ def items(pid):
         (T.calc_jac(pid, 'BackEuler'), None, T.replay_itm_matrix),
         (T.step(pid), T.WIT_F9, T.replay_step),
         (T.calc_h_first(pid),),
-        (T.calc_h(pid, drop=('event-index-only-moved-by-do_switch',)),),
+        (T.calc_h(pid, drop=('event-index-only-moved-by-do_switch',)), None, T.replay_calc_h),
         (T.run(pid, drop=('success=>initialisation-test-not-failed',)),),
     ]
 
@@ -47,6 +47,15 @@ def run(tier, seed):
                              'counted_as_proved': False})
         if bad:
             pack.violation(name, {'bounded': True, 'inputs': bad, 'native_cmd': 'contracts/bounded_tds_rule.py'})
+    from contracts import bounded_limiters_run as BLR
+    name = 'C04/andes/core/discrete.py:AntiWindup.check_eq/bounded:a-state-held-at-a-moving-limit-is-written-back-with-the-current-limit'
+    r = native_guard(pack, name, BLR.run_moving_limit)
+    if r is not None:
+        n, bad = r
+        pack.bounded.append({'function': 'AntiWindup.check_var / check_eq over successive evaluations with a falling upper limit', 'evaluations': n,
+                             'counted_as_proved': False, 'kind': 'bounded native (real AntiWindup on stub arrays)'})
+        if bad:
+            pack.violation(name, {'bounded': True, 'inputs': bad, 'native_cmd': 'contracts/bounded_limiters_run.py run_moving_limit'})
     from contracts import bounded_itm_matrix as BIM
     name = 'C04/andes/routines/daeint.py:calc_jac;calc_q/bounded:the-integrator-matrix-is-the-derivative-of-the-residual-it-is-solved-against(both-methods)'
     r = native_guard(pack, name, BIM.run)
